@@ -46,6 +46,14 @@ pub fn read_varint<R: Read>(reader: &mut R) -> io::Result<(u64, usize)> {
         return Ok((0, 1));
     }
 
+    // A u64 takes at most 8 bytes; a larger count is not a valid encoding
+    if no_bytes > 8 {
+        return Err(io::Error::new(
+            io::ErrorKind::InvalidData,
+            format!("invalid integer length byte {no_bytes}"),
+        ));
+    }
+
     // Read bytes and assemble value
     let mut value = 0u64;
     for _ in 0..no_bytes {
@@ -55,7 +63,7 @@ pub fn read_varint<R: Read>(reader: &mut R) -> io::Result<(u64, usize)> {
         value += byte_buf[0] as u64;
     }
 
-    Ok((value, (no_bytes + 1) as usize))
+    Ok((value, no_bytes as usize + 1))
 }
 
 /// Write a fixed 8-byte unsigned integer
